@@ -73,6 +73,7 @@ type Scenario struct {
 	Scheds []*simrt.Schedule `json:"scheds,omitempty"` // C15: the schedules compared
 	Aux    map[string]string `json:"aux,omitempty"`    // property-specific expectations recorded by the generator
 	Note   string            `json:"note,omitempty"`
+	C14    *C14Payload       `json:"c14,omitempty"`
 }
 
 // ---- outcome ---------------------------------------------------------------
@@ -143,6 +144,15 @@ type RunCtx struct {
 }
 
 var cur *RunCtx
+
+// recordRuns, when non-nil (replay mode), collects every execution a judge
+// performs so that the replay can print the full event traces.
+var recordRuns *[]RunRecord
+
+type RunRecord struct {
+	Ops     []Op
+	Outcome *Outcome
+}
 
 func (c *RunCtx) newInjected(what string) error {
 	c.nextID--
@@ -217,6 +227,9 @@ func Execute(sc *Scenario, sched *simrt.Schedule) (out *Outcome) {
 		}
 		out.TraceHash = w.Hash()
 		out.Trace = w.Trace
+		if recordRuns != nil {
+			*recordRuns = append(*recordRuns, RunRecord{Ops: sc.Ops, Outcome: out})
+		}
 		out.Stats = w.Stats
 		if w.Sched != nil {
 			out.Sched = w.Sched.Applied
